@@ -9,6 +9,7 @@ import (
 	"math"
 	"math/big"
 	"math/rand"
+	"os"
 
 	"github.com/ethereum/go-ethereum/crypto"
 	"github.com/ethereum/go-ethereum/rlp"
@@ -38,9 +39,20 @@ type profile struct {
 	bases    []uint32
 	setBenef bool // PoS: validator 0 sets a staker beneficiary in block 1
 	filler   bool // odd heights carry a transaction that fills the block up to within one legal step of the gas limit
+	length   int  // chain length (0: the -blocks flag)
+	light    bool // small transaction mix (long chains)
+	drain    bool // block 2 moves validator 2's endorsement away: it is no longer an authorised proposer afterwards
+	stakeUp  bool // PoS: validator 1 increases its stake in block 1 (unequal weights after the next epoch boundary)
+	qbases   []uint32 // base heights of the quick tier (nil: 2, 3 and the last block)
+	joinPoS  bool // HAYABUSA at 3 with a transition period of 3 blocks: the authorities queue validations by transaction
 }
 
 const never = math.MaxUint32
+
+func u32(v uint32) *uint32 { return &v }
+
+// blockedDev is the dev account the driver puts on thor's (mocked) blocklist; the templates never use it as origin.
+const blockedDev = 9
 
 func profiles() []profile {
 	base := sim.Options{Validators: nVal, Nodes: 1, ExtraAccts: nExtra, SkipLogs: true, EpochLength: 3}
@@ -53,6 +65,7 @@ func profiles() []profile {
 	return []profile{
 		{name: "poa-v1", opt: nog, forks: func(fc *thor.ForkConfig) {
 			fc.VIP191 = 3
+			fc.BLOCKLIST = 3
 			fc.VIP214, fc.FINALITY, fc.GALACTICA, fc.HAYABUSA = never, never, never, never
 		}},
 		{name: "poa-vip214-boundary", opt: nog, forks: func(fc *thor.ForkConfig) {
@@ -65,6 +78,10 @@ func profiles() []profile {
 		{name: "poa-smallgas", opt: base, extra: sim.Extra{GasLimit: 1_000_700}},
 		{name: "poa-fullblock", opt: base, extra: sim.Extra{GasLimit: 2_000_050}, filler: true},
 		{name: "pos", opt: pos, setBenef: true},
+		{name: "pos-weights", opt: pos, extra: sim.Extra{Periods: [3]uint32{3, 6, 9}}, stakeUp: true, length: 11, qbases: []uint32{9, 10}},
+		{name: "poa-endorse", opt: base, drain: true, qbases: []uint32{3, 5}},
+		{name: "hayabusa-transition", opt: pos, extra: sim.Extra{Hayabusa: u32(3), HayabusaTP: u32(3), NoStakers: true, Periods: [3]uint32{3, 6, 9}}, joinPoS: true, length: 8, qbases: []uint32{5, 6, 7}},
+		{name: "poa-long", opt: base, light: true, length: 135, qbases: []uint32{135}},
 	}
 }
 
@@ -85,6 +102,9 @@ type world struct {
 	nonce  uint64
 	sbenef thor.Address // the staker-set beneficiary of validator 0 (pos profile)
 	now    uint64       // the clock handed to consensus.Process
+	// asIfEndorsed makes the environment oracle ignore the endorsement balance (only to BUILD a block "as a stale
+	// proposer list would see it"; projections never use it)
+	asIfEndorsed bool
 }
 
 func newWorld(p profile, seed int64) *world {
@@ -170,7 +190,7 @@ func (w *world) mkTx(o txOpt) *tx.Transaction {
 	}
 	origin := o.origin
 	if origin == nil {
-		origin = w.key(3 + int(w.nonce)%nExtra)
+		origin = w.key(3 + int(w.nonce)%(nExtra-1))
 	}
 	var t *tx.Transaction
 	if o.delegator != nil {
@@ -216,6 +236,13 @@ func (w *world) mix(num uint32) tx.Transactions {
 	var out tx.Transactions
 	t1 := w.mkTx(txOpt{ref: ref, exp: 30})
 	out = append(out, t1)
+	// a tx that references the very block that includes it (lower edge of its window), and a long-lived one
+	out = append(out, w.mkTx(txOpt{ref: num, exp: 30}), w.mkTx(txOpt{ref: num - 1, exp: 1 << 30}))
+	if w.prof.light {
+		huge := new(big.Int).Mul(sim.BigBalance, big.NewInt(1000))
+		a := w.addr(9)
+		return append(out, w.mkTx(txOpt{ref: ref, exp: 1 << 30, clauses: []*tx.Clause{tx.NewClause(&a).WithValue(huge)}}))
+	}
 	out = append(out, w.mkTx(txOpt{ref: num - 1, exp: 1, clauses: []*tx.Clause{w.transfer(4, 1), w.transfer(5, 2), w.transfer(6, 3)}}))
 	if w.vip191At(num) {
 		out = append(out, w.mkTx(txOpt{ref: ref, exp: 30, feat: tx.DelegationFeature, origin: w.key(7), delegator: w.key(8)}))
@@ -249,10 +276,36 @@ func (w *world) mix(num uint32) tx.Transactions {
 		out = append(out, w.mkTx(txOpt{ref: 0, exp: 30, origin: w.key(0), gas: 400_000,
 			clauses: []*tx.Clause{tx.NewClause(&builtin.Staker.Address).WithData(data)}}))
 	}
+	if w.prof.stakeUp && num == 1 {
+		out = append(out, w.stakerTx(1, "increaseStake", new(big.Int).Mul(big.NewInt(5_000_000), big.NewInt(1e18)), w.addr(1)))
+	}
+	if w.prof.joinPoS && num == 4 {
+		for v := 0; v < nVal; v++ {
+			out = append(out, w.stakerTx(v, "addValidation", new(big.Int).Mul(big.NewInt(25_000_000), big.NewInt(1e18)), w.addr(v), thor.LowStakingPeriod()))
+		}
+	}
+	if w.prof.drain && num == 2 {
+		// validator 2 is its own endorsor: keep 1000 VET
+		keep := new(big.Int).Mul(big.NewInt(1000), big.NewInt(1e18))
+		a := w.addr(5)
+		out = append(out, w.mkTx(txOpt{ref: 0, exp: 30, origin: w.key(2), clauses: []*tx.Clause{tx.NewClause(&a).WithValue(new(big.Int).Sub(sim.BigBalance, keep))}}))
+	}
 	if w.prof.filler && num%2 == 1 {
 		out = append(out, w.fillerTx(num, out))
 	}
 	return out
+}
+
+// stakerTx is a call of the staker contract by dev account `from` carrying `value` VET.
+func (w *world) stakerTx(from int, method string, value *big.Int, args ...any) *tx.Transaction {
+	m, ok := builtin.Staker.ABI.MethodByName(method)
+	if !ok {
+		panic("staker ABI: " + method + " missing")
+	}
+	data, err := m.EncodeInput(args...)
+	must(err)
+	return w.mkTx(txOpt{ref: 0, exp: 30, origin: w.key(from), gas: 600_000,
+		clauses: []*tx.Clause{tx.NewClause(&builtin.Staker.Address).WithData(data).WithValue(value)}})
 }
 
 // fillerTx brings the gas used by the block to gasLimit-200 (plain transfers use exactly their intrinsic gas:
@@ -343,11 +396,13 @@ func (w *world) extend() error {
 	parent := w.summary(parentBlk.Header().ID())
 	num := parent.Header.Number() + 1
 	who, best := -1, uint64(math.MaxUint64)
+	var able []int
 	for v := 0; v < nVal; v++ {
 		t, err := w.when(parent, v)
 		if err != nil {
 			continue
 		}
+		able = append(able, v)
 		if t < best {
 			who, best = v, t
 		}
@@ -359,7 +414,7 @@ func (w *world) extend() error {
 	case w.prof.setBenef && num >= 2 && num%2 == 0:
 		who = 0 // the validator with the staker-set beneficiary
 	case w.rng.Intn(4) == 0:
-		who = w.rng.Intn(nVal) // skip slots now and then: deactivations, other scores
+		who = able[w.rng.Intn(len(able))] // skip slots now and then: deactivations, other scores
 	}
 	com := w.finalityAt(num) && w.rng.Intn(2) == 0
 	blk, receipts, err := w.mint(parent, who, com, 0, w.mix(num))
@@ -368,6 +423,19 @@ func (w *world) extend() error {
 	}
 	for i, t := range blk.Transactions() {
 		w.txs[t.ID()] = txInfo{height: num, reverted: receipts[i].Reverted}
+		if os.Getenv("BLOCKRULES_DEBUG") != "" && len(t.Clauses()) == 1 && t.Clauses()[0].To() != nil && *t.Clauses()[0].To() == builtin.Staker.Address {
+			fmt.Println("DEBUG", w.prof.name, "block", num, "staker tx reverted:", receipts[i].Reverted, "gas", receipts[i].GasUsed)
+		}
+	}
+	if os.Getenv("BLOCKRULES_DEBUG") != "" {
+		st := w.net.God.Stater.NewState(w.summary(blk.Header().ID()).Root())
+		ls, _ := builtin.Staker.Native(st).LeaderGroup()
+		act, _ := builtin.Staker.Native(st).IsPoSActive()
+		fmt.Print("DEBUG ", w.prof.name, " block ", num, " signer ", who, " posActive ", act, " leaders")
+		for _, l := range ls {
+			fmt.Print(" ", l.Weight, "/", l.Active)
+		}
+		fmt.Println()
 	}
 	w.blocks = append(w.blocks, blk)
 	return nil
